@@ -1,0 +1,15 @@
+//go:build verif
+
+package types
+
+// Contracts checked by /verif/govc (contract-based deductive verification).
+// Comment-only: with the `verif` tag off this file is not even parsed.
+
+//@ global UnstakingAppsKey len(value) == 1 && cap(value) == 1 && value[0] == 3
+
+// queue key of an unstaking time: the queue prefix followed by the sortable form of the instant
+//@ func KeyForUnstakingApps
+//@   props C24
+//@   modifies nothing
+//@   ensures [cat] extEq(bytes(result), cat(bytes(global(UnstakingAppsKey)), timeKey(unixNano(unstakingTime)))) && bytes(result) == cat(bytes(global(UnstakingAppsKey)), timeKey(unixNano(unstakingTime)))
+//@   ensures [fresh] result != nil && fresh(result)
